@@ -608,11 +608,16 @@ func (b *assignmentBuilder) sliceToSlice(lhs, rhs bmodel.Node) (a gmodel.Assignm
 	}
 
 	if b.opts.Typecast && types.ConvertibleTo(rhsElem, lhsElem) {
+		cast := b.imports.TypeName(lhsElem)
+		if util.IsPtr(lhsElem) {
+			// A conversion to a pointer type must be parenthesized: (*T)(e).
+			cast = "(" + cast + ")"
+		}
 		a = gmodel.SliceTypecastAssignment{
 			LHS:  lhs.AssignExpr(),
 			RHS:  rhs.AssignExpr(),
 			Typ:  "[]" + b.imports.TypeName(lhsElem),
-			Cast: b.imports.TypeName(lhsElem),
+			Cast: cast,
 		}
 		return
 	}
